@@ -28,19 +28,13 @@ def run(repo: Repo, rep: Report):
     from sa.rules import groups, sem
     svg = repo["svg"]
     for rid, txt in [
-        ("R-SITE.parser-flags", "XMLParser(remove_comments=True, remove_blank_text=True) at the only XML entry point"),
+        ("R-SITE.parser-flags", "fromstring / parse interpreted: the document is handed to lxml once, through an XMLParser with remove_comments=True and remove_blank_text=True"),
         ("R-ORDER.junk-first", "topicosvg interpreted on a schematic document with and without ignorable content at every level (processing instructions, nested title/desc/metadata, "
                                "foreign elements and attributes, id-less symbols shadowing live ids, attribute-less wrapper groups): identical results"),
         ("R-SITE.redundant-filter", "traversal numbering and the keep-or-flatten decision are independent of comments and processing instructions among the children"),
     ]:
         rep.rule(rid, txt)
-    # ---- parser
-    fs = svg.func("SVG.fromstring")
-    ps = [c for c in ast.walk(svg.tree) if isinstance(c, ast.Call) and call_name(c).endswith("XMLParser")]
-    if len(ps) == 1 and _true(ps[0], "remove_comments") and _true(ps[0], "remove_blank_text"):
-        rep.ok("R-SITE.parser-flags", "svg.SVG.fromstring: XMLParser(remove_comments=True, remove_blank_text=True)")
-    else:
-        rep.fail("R-SITE.parser-flags", "svg.SVG.fromstring", ps[0] if ps else "etree.XMLParser(...)", "comments / inter-element whitespace are no longer dropped at parse time", svg, ps[0] if ps else fs)
+    sem.check_xml_entry(repo, rep, "R-SITE.parser-flags", {"remove_comments": True, "remove_blank_text": True})
     sem.check_noise_invariance(repo, rep, "R-ORDER.junk-first")
     groups.check_removable_predicate(repo, rep, "R-SITE.redundant-filter", "comments / processing instructions among the children must not influence the keep-or-flatten decision")
     groups.check_try_remove_group(repo, rep, "R-SITE.redundant-filter", "comments among the children must be skipped when the opacity is pushed")
